@@ -182,15 +182,15 @@ def span(n):
 # ---------------------------------------------------------------------------------------------------------------------
 # rebasing (plain Python): lines minus start line, first-line byte columns minus start column
 
-def rebase(node, l0, c0, dedent=0, dl=0, dc1=0):
+def rebase(node, l0, c0, dedent=0, dl=0, dc1=0, nodedent=()):
     """deep copy of `node` with positions made relative to a fragment starting at (l0, c0); other lines lose `dedent`
     bytes of indentation; then the layout variant moves every line down by `dl` and the first line right by `dc1`."""
     n = copy.deepcopy(node)
     for a in ast.walk(n):
         if getattr(a, 'end_lineno', None) is not None and hasattr(a, 'lineno'):
             ln, el = a.lineno, a.end_lineno
-            a.col_offset = a.col_offset - (c0 if ln == l0 else dedent) + (dc1 if ln == l0 else 0)
-            a.end_col_offset = a.end_col_offset - (c0 if el == l0 else dedent) + (dc1 if el == l0 else 0)
+            a.col_offset = a.col_offset - (c0 if ln == l0 else 0 if ln in nodedent else dedent) + (dc1 if ln == l0 else 0)
+            a.end_col_offset = a.end_col_offset - (c0 if el == l0 else 0 if el in nodedent else dedent) + (dc1 if el == l0 else 0)
             a.lineno = ln - l0 + 1 + dl
             a.end_lineno = el - l0 + 1 + dl
     return n
@@ -624,10 +624,28 @@ def g_handlers(T):
     return m.body[0].handlers
 
 
+def string_lines(T):
+    """1-based lines of T that are continuation lines of a multi-line string token (CPython's tokenizer); None if T does not
+    tokenize"""
+    out = set()
+    try:
+        for t in tokenize.generate_tokens(io.StringIO(T).readline):
+            if t.end[0] > t.start[0] and t.type not in (tokenize.OP, tokenize.NL, tokenize.NEWLINE, tokenize.INDENT, tokenize.DEDENT,
+                                                        tokenize.ENDMARKER, tokenize.COMMENT):
+                out.update(range(t.start[0] + 1, t.end[0] + 1))
+    except Exception:
+        return None
+    return out
+
+
 def g_cases(T):
     if _blank(T):
         return []
-    m = _p('match _:\n' + '\n'.join(' ' + l for l in T.split('\n')))
+    sl = string_lines(T)
+    if sl is None:
+        return None
+    # the genuine construct: the cases indented under a match statement; the text inside multi-line strings stays as it is
+    m = _p('match _:\n' + '\n'.join(l if i + 1 in sl else ' ' + l for i, l in enumerate(T.split('\n'))))
     if m is None or len(m.body) != 1 or not isinstance(m.body[0], ast.Match):
         return None
     return m.body[0].cases
@@ -734,7 +752,7 @@ def gate(mode, T, which='must'):
 # fragment extraction
 
 class Frag:
-    __slots__ = ('mode', 'kind', 'text', 'l0', 'c0', 'dedent', 'nodes', 'container', 'opcls')
+    __slots__ = ('mode', 'kind', 'text', 'l0', 'c0', 'dedent', 'nodes', 'container', 'opcls', 'nodedent')
 
     def __init__(self, mode, kind, text, l0, c0, nodes, container=None, dedent=0, opcls=None):
         self.mode, self.kind, self.text, self.l0, self.c0 = mode, kind, text, l0, c0
@@ -742,6 +760,7 @@ class Frag:
         self.container = container      # None: result is nodes[0] itself;  (class name, field): SPECIAL SLICE container
         self.dedent = dedent
         self.opcls = opcls
+        self.nodedent = ()              # lines (in the coordinates of `nodes`) that keep their text: continuation lines of strings
 
 
 def _dedent_text(P, s, e):
@@ -752,9 +771,10 @@ def _dedent_text(P, s, e):
         return P.text(s, e)
     out = [P.bl[l0 - 1][c0:].decode()]
     for ln in range(l0 + 1, l1 + 1):
-        if ln in P.strlines:
-            return None
         b = P.bl[ln - 1] if ln < l1 else P.bl[ln - 1][:c1]
+        if ln in P.strlines:
+            out.append(b.decode())          # inside a multi-line string: the text is kept, nodes on this line keep their columns
+            continue
         if b.strip() == b'':
             if ln == l1:
                 return None
@@ -795,7 +815,10 @@ def fragments(P: Prog, rng, per_kind=6):
             t = _dedent_text(P, s, e)
             if t is None:
                 return
-            out.append(Frag(mode, kind, t, s[0], s[1], nodes, container, dedent=s[1], opcls=opcls))
+            fr = Frag(mode, kind, t, s[0], s[1], nodes, container, dedent=s[1], opcls=opcls)
+            if s[1]:
+                fr.nodedent = frozenset(ln for ln in range(s[0] + 1, e[0] + 1) if ln in P.strlines)
+            out.append(fr)
         else:
             out.append(Frag(mode, kind, P.text(s, e), s[0], s[1], nodes, container, opcls=opcls))
 
@@ -1390,15 +1413,16 @@ SINGLE_ATOMS = {
     'ImportFrom_name': ['a', 'a as b', '*', 'é'],
     'arguments': ['a, b=1', '*a, **k', 'a: "é", /, b', '', 'a, *, b: int = "ü"'],
     'arguments_lambda': ['a, b=1', '*a, **k', 'é, /, ü', ''],
-    'ExceptHandler': ['except: pass', 'except E as é: pass', 'except (A, B):\n    pass', 'except* E: pass'],
-    'match_case': ['case 1: pass', 'case "é" as y if y:\n    pass', 'case [a, *b]: pass'],
-    'stmt': ['a = 1', 'if a:\n    pass', '@d\ndef f(): pass', 'é = "ü"', 'x: int = 1', 'import a'],
+    'ExceptHandler': ['except E:\n    x = """a\nb""" + f(c,\n        d)', 'except (A, """é\nü""".x(\n  1)) as e:\n    pass', 'except: pass', 'except E as é: pass', 'except (A, B):\n    pass', 'except* E: pass'],
+    'match_case': ['case 1:\n    log("""multi\nline %s""" % (a,\n        b))', 'case ["""a\nb""", (c,\n d)]: pass', 'case """é\nü""" "x" | (1\n  ): pass',
+                   'case x:\n    y = f"""a\n{x}\nü""" + g(\n  z)\n    return', 'case 1: pass', 'case "é" as y if y:\n    pass', 'case [a, *b]: pass'],
+    'stmt': ['if a:\n    x = """a\nb""" % (c,\n      d)', 'x = \'\'\'é\nü\'\'\' + (y,\n z)', 'def f():\n    """doc\n  é"""; return (1,\n 2)', 'a = 1', 'if a:\n    pass', '@d\ndef f(): pass', 'é = "ü"', 'x: int = 1', 'import a'],
     'operator': ['+', '**', '//', '@', '>>'], 'unaryop': ['not', '~', '-'], 'cmpop': ['is not', 'not in', '<=', 'is', 'in'], 'boolop': ['and', 'or'],
     '_arglikes': ['a, *b, k=v, **d', '"é", ü="ñ"', ''], '_withitems': ['a as b, (c := 1)', 'f("é") as é, g', '(yield)', ''],
     '_type_params': ['T, *Ts, **P', 'U: "é"', ''], '_decorator_list': ['@a', '@é("ü")\n@b', ''], '_Assign_targets': ['a =', 'é = ü.x = a[0] =', ''],
     '_comprehensions': ['for a in b for c in d', 'for é in ü if a', ''], '_comprehension_ifs': ['if a', 'if "é" if b', ''],
     '_aliases': ['a, b.c as d', 'é as ü', '*', ''], '_Import_names': ['a, b.c as d', ''], '_ImportFrom_names': ['a, b as c', '*', ''],
-    '_pattern_attrlikes': ['a, "é", k=1', 'k=v', ''], '_ExceptHandlers': ['except A: pass\nexcept: pass', ''], '_match_cases': ['case 1: pass\ncase _: pass', ''],
+    '_pattern_attrlikes': ['a, "é", k=1', 'k=v', ''], '_ExceptHandlers': ['except A: pass\nexcept: pass', 'except A:\n    x = """é\nü""" + (y,\n  z)\nexcept: pass', ''], '_match_cases': ['case 1: pass\ncase _: pass', 'case """a\nb""" | (1\n ): pass\ncase _:\n    x = """é\nü""" + (y,\n  z)', ''],
 }
 SINGLE_ORIGIN = {'pattern': (3, 0), '_pattern_attrlikes': (3, 0), 'alias': None, 'Import_name': (1, 7), 'ImportFrom_name': (1, 14), 'ExceptHandler': (2, 0),
                  '_ExceptHandlers': (2, 0), 'match_case': (2, 1), '_match_cases': (2, 1), 'stmt': (1, 0), '_decorator_list': (1, 0), '_Assign_targets': (1, 4),
@@ -1443,4 +1467,5 @@ def single_frag(mode, T):
     fr = Frag(mode, 'atom', T, l0, c0, nodes, cont)
     if mode in ('match_case', '_match_cases'):
         fr.dedent = 1
+        fr.nodedent = frozenset(i + 1 for i in (string_lines(T) or ()))     # template line = line of T + 1
     return fr
